@@ -636,6 +636,12 @@ func (ac *assertChecker) Run(rule string, fns []*ssa.Function) {
 				if !ok || ta.CommaOk {
 					continue
 				}
+				// x.(I) with I the interface type x already has: the nil check a method value `x.M` compiles to — it
+				// fails exactly when calling x.M() would, which is the nil-receiver class (R-NILOBJ / R-NILFIELD), not a
+				// type confusion
+				if _, isIface := ta.AssertedType.Underlying().(*types.Interface); isIface && types.Identical(ta.X.Type(), ta.AssertedType) {
+					continue
+				}
 				n++
 				key := fmt.Sprintf("%s|assert %s.(%s)", fnKey(fn), valueDesc(ta.X), typeStr(ta.AssertedType))
 				ac.lastFieldSet = ""
